@@ -328,6 +328,10 @@ def guards : List (Var × String) := [
     are analysed where they are DEFINED.  The list is compared on every run: a new entry is a table-mismatch. -/
 def dynCalls : List (String × Nat × Nat) := [("CBlock.Walk", 1, 0), ("ChainDatabase.IterateUnConfirms", 1, 0), ("ChainDatabase.SetStableBlock", 2, 0), ("ChainDatabase.blockCommit", 3, 0), ("RunContext.flush", 2, 0), ("TrieDatabase.Commit", 1, 0)]
 
+/-- check-then-act splits (a function that reads a variable in one section of its lock and writes it in another):
+    expected none -/
+def rmwSplits : List (String × String) := []
+
 /-- head reads that are deliberately made before the chain lock is taken (see the header) -/
 def benignPrechecks : List String := ["DPoVP.InsertBlock/DPoVP.isIgnorableBlock"]
 
